@@ -237,6 +237,38 @@ def r10_2(ctx):
         e = src(gen[0].elt).replace(' ', '')
         ctx.decide('R10.2', cd.qual, src(gen[0]), e == '(bdindices+j*NN,dircoeffs[...,j].ravel())' or None, gen[0],
                    'component j: indices shifted by j*NN paired with the j-th coefficient component')
+    # vector data: the indices are blocked (component j occupies bdindices + j*NN), so the values must be taken component by
+    # component.  A C-order ravel of the whole coefficient array -- component axis LAST -- is point-major (interleaved)
+    def strip(e):
+        while True:
+            if isinstance(e, ast.Call) and isinstance(e.func, ast.Attribute) and e.func.attr in ('reshape', 'copy', 'astype', 'squeeze') :
+                e = e.func.value
+            elif isinstance(e, ast.Call) and (call_name(e) or '') in ('np.reshape', 'np.asarray', 'np.ascontiguousarray') and e.args:
+                e = e.args[0]
+            else:
+                return e
+    for c in ast.walk(cd.node):
+        recv = None
+        if isinstance(c, ast.Call) and isinstance(c.func, ast.Attribute) and c.func.attr in ('ravel', 'flatten') :
+            recv = c.func.value
+            if any(k.arg == 'order' and src(k.value) in ("'F'", '"F"') for k in c.keywords):
+                continue
+        elif isinstance(c, ast.Call) and (call_name(c) or '') == 'np.ravel' and c.args:
+            recv = c.args[0]
+        if recv is None:
+            continue
+        base = strip(recv)
+        if not (isinstance(base, ast.Name) and base.id == 'dircoeffs'):
+            continue
+        facts = guards.dominating_facts(c)
+        scalar = any(t_.replace(' ', '') == 'extra_dims==0' and p_ for (t_, p_, _n) in facts)
+        vector = any((t_.replace(' ', '') == 'extra_dims==1' and p_) or (t_.replace(' ', '') == 'extra_dims==0' and not p_) for (t_, p_, _n) in facts)
+        if scalar or not vector:
+            continue
+        ctx.violated('R10.2', cd.qual, src(c), c,
+                     'vector data: the whole coefficient array is raveled with the component axis last, i.e. point by point (interleaved), '
+                     'while the indices are numbered component by component (bdindices + j*NN): the values do not belong to the dofs they '
+                     'are returned with')
     si = ctx.prog.func(A + '.slice_indices')
     t = src(si.node)
     ok = 'itertools.product(*axdofs)' in t and 'np.ravel_multi_index(multi_indices.T, shape)' in t and 'axdofs[ax] = [idx]' in t
@@ -403,6 +435,19 @@ def r10_5(ctx):
     ctx.expect_assign('R10.5', init, 'self.b', 'self.restrict_rhs(b - A.dot(self.R_elim.T.dot(values)))',
                       'right-hand side lifted by the prescribed values: b - A u_D on the kept rows')
     ctx.expect_assign('R10.5', init, 'self.A', 'self.restrict_matrix(A)', 'restricted matrix')
+    # the lifted right-hand side as a matrix expression (read through local temporaries): b - A R_elim^T values.  The same
+    # factors in another order or transposition, e.g. (R_elim A)^T values = A^T R_elim^T values, agree for symmetric A only
+    from sa import matchain, resolve
+    sb = [s_ for s_ in own_nodes(init.node) if isinstance(s_, ast.Assign) and src(s_.targets[0]) == 'self.b']
+    if sb and isinstance(sb[-1].value, ast.Call) and sb[-1].value.args:
+        arg = resolve.expand(sb[-1].value.args[0], sb[-1], keep=('A', 'b', 'values', 'self'))
+        want_e = ast.parse('b - A.dot(self.R_elim.T.dot(values))', mode='eval').body
+        v = matchain.compare(arg, want_e)
+        ctx.decide('R10.5', init.qual, 'lifted right-hand side = ' + matchain.show(arg), True if v == 'equal' else (False if v == 'same-atoms' else None),
+                   sb[-1], 'b - A R_elim^T values' if v == 'equal' else
+                   'the lifting is built from the same factors as b - A R_elim^T values but in another order / transposition (%s): it agrees '
+                   'with it for symmetric A only; with a nonsymmetric matrix and nonzero prescribed values the completed solution does not '
+                   'satisfy the free equations' % matchain.show(arg), definite=True)
 
 
 def run(ctx):
